@@ -43,6 +43,7 @@ Ltac num_fact :=
         | apply Rlt_not_eq; first [lra | interval] | apply Rgt_not_eq; first [lra | interval]
         | (intro; lra) ].
 
+Ltac log_eq_hook := fail.
 Ltac RUN_ t :=
   eval lazy -[Rplus Rmult Rminus Rdiv Rinv Ropp Rmax Rmin Rlt Rle Rgt Rge ln exp sqrt log10 IZR dec Rpower pow PI DBL_MAX not Rabs] in t.
 
@@ -73,7 +74,7 @@ Ltac yields_with fact finish :=
       find_answers fact (fun ds => call G fuel c self args kws (World rg cu [] ds [])) (@nil bool)
         ltac:(fun ds => exists ds; eexists; split;
                 [ run; finish
-                | cbn [decs cur olog pc holds]; repeat split; try reflexivity; try fact ])
+                | cbn [decs cur olog pc holds]; repeat split; try reflexivity; try fact; try log_eq_hook ])
   end.
 Ltac yields_auto := yields_with real_fact ltac:(reflexivity).
 
@@ -100,7 +101,7 @@ Ltac yields_f_with fact finish :=
       find_answers fact (fun ds => f (World rg cu [] ds [])) (@nil bool)
         ltac:(fun ds => exists ds; eexists; split;
                 [ run; finish
-                | cbn [decs cur olog pc holds]; repeat split; try reflexivity; try fact ])
+                | cbn [decs cur olog pc holds]; repeat split; try reflexivity; try fact; try log_eq_hook ])
   end.
 (* run the body of a method and return the receiver as it is when the body ends (Python mutates [self] in place) *)
 Definition run_method (G : fenv) (fuel : nat) (fd : fundef) (self : val) (extra : env) (w : world) : res (val * world) :=
@@ -110,10 +111,27 @@ Definition run_method (G : fenv) (fuel : nat) (fd : fundef) (self : val) (extra 
   | OReturn _ => Stuck "method returned a value"
   | OTail _ _ _ => Stuck "tail call" end.
 (* equality of interpreter results up to real arithmetic in the numeric leaves *)
-Ltac real_leaf := first [ reflexivity | ring | (field; repeat split; real_fact0) | lra ].
+Ltac real_leaf0 := first [ reflexivity | ring | (field; repeat split; real_fact0) | lra ].
+Ltac real_leaf :=
+  first [ real_leaf0
+        | (match goal with
+           | |- Rmax _ _ = Rmax _ _ => apply f_equal2
+           | |- Rmin _ _ = Rmin _ _ => apply f_equal2
+           | |- sqrt _ = sqrt _ => apply f_equal
+           | |- ln _ = ln _ => apply f_equal
+           | |- exp _ = exp _ => apply f_equal
+           | |- log10 _ = log10 _ => apply f_equal
+           | |- (_ + _ = _ + _)%R => apply f_equal2
+           | |- (_ * _ = _ * _)%R => apply f_equal2
+           | |- (_ / _ = _ / _)%R => apply f_equal2
+           | |- (- _ = - _)%R => apply f_equal
+           end; real_leaf) ].
 Ltac val_eq :=
   repeat lazymatch goal with
          | |- @eq R _ _ => fail
-         | |- _ => first [ reflexivity | progress f_equal ]
+         | |- _ => first [ reflexivity | progress f_equal
+                         | (match goal with |- ?a = ?b => let a' := eval hnf in a in let b' := eval hnf in b in progress change (a' = b') end) ]
          end;
   try (unfold Rminus; norm_dec; real_leaf).
+
+Ltac log_eq_hook ::= (lazymatch goal with |- @eq (list (string * list val)) _ _ => val_eq end).
